@@ -169,9 +169,11 @@ func (m *mock) observe(c config, s *refmvcc.Store) (fails []obsFail, n int) {
 		case l == nil:
 			return "no-lock"
 		case l.Start > ts:
-			return "newer-" + strings.ToLower(l.Op.String()) + "-lock"
+			return "newer-lock"
+		case l.Op == refmvcc.OpPut || l.Op == refmvcc.OpDel:
+			return "data-lock"
 		}
-		return strings.ToLower(l.Op.String()) + "-lock"
+		return "non-data-lock"
 	}
 	tsName := func(ts uint64) string {
 		if ts == refmvcc.MaxTS {
